@@ -92,6 +92,7 @@ class PathOracle:
         self.trace = []
         self.pos = 0
         self.solver = z3.Solver()
+        self.solver.set('timeout', 15000)      # an undecided branch condition is a harness error, never a hang
         self.pre = list(pre)
         if self.pre:
             self.solver.add(*self.pre)
